@@ -12,8 +12,23 @@ sender under test against the MIU the *other* one announced in its general bytes
                 ==  leaf PDUs handed to the receiver's dispatch(), same order; an access point enqueue during a
                 leaf dispatch gets exactly that PDU
 
-Frames that carry a PDU submitted through a raw access point socket of the sender are exempt from the size
-rules (the property says so), not from transparency.
+  conservation  (the sender half of "exactly the PDUs ... in the same order") every message a send()/sendto() call
+                accepted is recorded at the socket API; per sending endpoint (I: end, SSAP, DSAP and which socket of
+                the harness was that endpoint; UI: end, SSAP) the I/UI payloads on the wire must be the accepted
+                ones, in the order of acceptance, each once (checked leaf by leaf while the history runs), and - when
+                the link went quiet and the connection was neither ended (DISC/FRMR, close()) nor disturbed by the
+                harness' virtual peer - all of them; ended/disturbed connections: the wire is a subsequence
+  delivery      the messages the receiving application reads from a socket are the I payloads the wire carried for
+                that connection, in order, each once (UI: a subsequence, connection-less data may be dropped)
+  routing       a dispatched leaf PDU is handed to the access point its DSAP addresses (connect-by-name: the access
+                point the harness bound under that name), once, whenever that access point exists
+
+A PDU submitted through a raw access point socket of the sender is exempt from the size rules (the property says
+so), not from transparency; the exemption is per leaf: the other members of an aggregate that carries such a PDU
+still have to fit (no member other than the raw one may end beyond the Link MIU).
+
+An exception that leaves collect()/encode (sender) or decode/dispatch (receiver) is a verdict (the PDUs dequeued so
+far are lost); an exception in the harness' own observers makes the run INCONCLUSIVE.
 
 Profile `vack` aims at the last stage of collect(): 2..6 data link connections of the sender (receive window
 2..15) have received I PDUs the application has read, so that sendack() owes a *voluntary* RR/RNR on each, and a
@@ -23,11 +38,20 @@ leaves every possible remainder of room in front of the acknowledgement loop; ne
 (information field against the announced Link MIU); a harness side wrapper of DataLinkConnection.sendack() and a
 look at the sender's connection state only feed the coverage counters (which leaf PDUs were voluntary
 acknowledgements, how many were still owed, how much room the acknowledgement loop found).
+
+Profile `conn` sets connections up while the queues are in use: connect() by address and by service names of 1..200
+octets (bound on the peer under SAP 16..31, or bound nowhere), accept() and refusals make CONNECT, CC and DM PDUs due
+behind (or in front of) a data PDU that leaves -4..+4 octets around what they need in the aggregate; sockets,
+listeners and whole connections are created in mid-history; a connection is closed and made again from the same SAP
+pair with another MIU (the payload oracle forgets a connection's MIUs at its DISC/DM/FRMR and follows the new
+CONNECT/CC) and then used up to SO_SNDMIU and one octet beyond; raw access point PDUs travel beside others.
 """
+import os
 import random
 import struct
 import threading
 import time
+import traceback
 
 from vf.core.rec import exc_sig
 from vf.ref import llcp_ref as ref
@@ -40,7 +64,12 @@ RULE = ("a case is one history: (Link MIU announced by A, by B, aggregation on/o
         "requests answered in batches, concurrent resolve() calls with names of 1..60 bytes, CONNECT/DISC/I/RR "
         "PDUs from the peer that make DM/FRMR/RR due, receive-busy toggles, close; profile vack: 10..21 rounds in "
         "which 2..6 connections with receive window 2..15 owe voluntary acknowledgements while a leading UI/I PDU of "
-        "Link MIU-60..Link MIU octets, stepped octet by octet, plus necessary acks/RNR/DM/SNL fill the aggregate); "
+        "Link MIU-60..Link MIU octets, stepped octet by octet, plus necessary acks/RNR/DM/SNL fill the aggregate; "
+        "profile conn: 5..11 rounds in which connect() by address and by service names of 1..200 octets (bound on "
+        "the peer or not), accept() and refusals make CONNECT/CC/DM due behind a data PDU that leaves -4..+4 octets "
+        "around what they need, sockets/listeners/connections are created while the history runs, a connection is "
+        "closed and made again from the same SAP pair with another MIU and used up to SO_SNDMIU+1, raw access point "
+        "PDUs travel beside others); every accepted send()/sendto() and every message read is recorded; "
         "distinct by the whole tuple; "
         "non-trivial if at least one non-SYMM frame went through the size and transparency oracles")
 ASSUMPTIONS = ["vf.ref.llcp_ref and the 10-line aggregate splitter in this module read wire frames correctly",
@@ -48,17 +77,43 @@ ASSUMPTIONS = ["vf.ref.llcp_ref and the 10-line aggregate splitter in this modul
                "(cross-checked against the configured value; a mismatch makes the history inconclusive)",
                "PDUs handed to a controller with dispatch() by the harness stand for frames a peer sent; "
                "they are not subject to the oracles, the controller's answers are",
-               "link turns alternate strictly (A,B,A,B) as NFC-DEP forces them to; an idle side sends SYMM"]
+               "link turns alternate strictly (A,B,A,B) as NFC-DEP forces them to; an idle side sends SYMM",
+               "the harness looks at socket internals (state, queues) only to steer the workload and to decide whether "
+               "an endpoint is unambiguous (conservation/delivery are not judged otherwise); whether an access point "
+               "exists at the moment of a dispatch is read from the controller's own table",
+               "service names are resolved by the harness' own table of the names it bound"]
 REQUIRED = ["frames_checked", "agf_frames", "transparency_compared", "pdu_len_contract", "snl_gt30_answers",
             "frames_at_exact_miu_lone", "frames_at_exact_miu_agf", "rr_in_agf", "dm_in_agf", "i_payload_checked",
             "ui_payload_checked", "miu_not_multiple_of_4_checked",
+            # every half of the transparency oracle saw something
+            "enqueue_observed", "transparency_encode_compared", "transparency_compared_agf",
+            # routing clause
+            "enqueue_routed_checked", "enqueue_by_name_checked",
+            # conservation / delivery
+            "conservation_wire_checked_I", "conservation_wire_checked_UI", "conservation_wire_checked_in_agf",
+            "conservation_complete_checked_I", "conservation_complete_checked_UI", "delivery_checked_I",
+            "delivery_checked_UI", "delivery_complete_checked",
+            # service discovery answers and own requests in one SNL PDU; sends between connection and Link MIU
+            "snl_answers_and_requests", "snl_answers_and_requests_near_full",
+            "i_payload_checked_connection_miu_below_link_miu",
+            "dlc_send_above_connection_miu_within_link_miu_not_accepted",
+            # profile conn: connection set-up PDUs behind data in nearly full aggregates, sockets and connections made
+            # while the history runs, a SAP pair connected twice, raw access point PDUs beside others
+            "histories_conn", "mid_connect_established_by_addr", "mid_connect_established_by_name",
+            "mid_connect_refused_by_addr", "mid_connect_refused_by_name", "connect_behind_data_in_agf",
+            "connect_by_name_in_agf", "cc_behind_data_in_agf", "dm_behind_data_in_agf",
+            "agf_near_full_with_connection_setup", "mid_history_setups", "reconnect_calls",
+            "connection_miu_forgotten_on_DISC", "i_payload_checked_on_sap_pair_connected_again",
+            "frames_with_raw_and_other_leaves", "raw_comembers_checked",
             # profile vack: the acknowledgement loop of collect() was reached in the deciding situations
+            "histories_vack",
             "agf_2plus_vack_behind_other", "frames_at_exact_miu_agf_with_vack", "vack_loop_stopped_free_4",
             "agf_vack_with_other_ack", "agf_vack_with_dm_or_snl"] + ["vack_room_%02d" % _r for _r in range(13)]
 
 SPECIAL = (list(range(128, 141)) + list(range(247, 261)) + list(range(1000, 1004)) + list(range(2170, 2176)))
 PROFILES = ["sd", "edge", "mix", "mix"]
 VACK_REPS = {"quick": 12, "thorough": 3}       # histories of profile vack per target Link MIU
+CONN_REPS = {"quick": 3, "thorough": 1}        # histories of profile conn per target Link MIU and aggregation mode
 VACK_SWEEP = 61                                # leading PDU sizes Link MIU-60 .. Link MIU
 
 
@@ -75,6 +130,7 @@ def plan(tier, seed):
         reps = 16
         tmo = 3000
     vreps = VACK_REPS[tier if tier in VACK_REPS else "thorough"]
+    creps = CONN_REPS[tier if tier in CONN_REPS else "thorough"]
     jobs = []
     for r in range(reps):
         for t in targets:
@@ -82,6 +138,9 @@ def plan(tier, seed):
                 jobs.append([t, agf, PROFILES[(r + agf) % len(PROFILES)]])
             if r < vreps:
                 jobs.append([t, 1, "vack"])       # voluntary acknowledgements exist with aggregation only
+            if r < creps:
+                jobs.append([t, 1, "conn"])
+                jobs.append([t, 1 if r % 2 else 0, "conn"])
     return [{"jobs": jobs[i::n], "timeout": tmo} for i in range(n)]
 
 
@@ -144,6 +203,34 @@ def canon(d):
 
 
 # ---------------------------------------------------------------------------------------------
+class MonitorError(Exception):
+    """the harness' own observer failed; the run is INCONCLUSIVE (recorded where it happened), the history stops"""
+
+
+class Judged(Exception):
+    """an exception of nfcpy that was turned into a verdict where it surfaced; the history stops"""
+
+    def __init__(self, orig):
+        Exception.__init__(self, repr(orig))
+        self.orig = orig
+
+
+def here_sig(e):
+    tb = traceback.extract_tb(e.__traceback__)
+    if not tb:
+        return type(e).__name__
+    return "%s@%s:%s" % (type(e).__name__, os.path.basename(tb[-1].filename), tb[-1].name)
+
+
+def subseq(w, a):
+    """w is a subsequence of a (greedy matching decides it)"""
+    i, n = 0, len(w)
+    for x in a:
+        if i < n and w[i] == x:
+            i += 1
+    return i == n
+
+
 _ENQ_HOOKS = {}
 _ENQ_PATCHED = []
 
@@ -159,10 +246,10 @@ def _patch_enqueue():
         def enqueue(self, rcvd_pdu, _orig=orig):
             hook = _ENQ_HOOKS.get(id(self.llc))
             if hook is not None:
-                hook(rcvd_pdu)
+                hook(self, rcvd_pdu)
             return _orig(self, rcvd_pdu)
         cls.enqueue = enqueue
-    _ENQ_PATCHED.append(True)
+    _ENQ_PATCHED.append(L.ServiceDiscovery)
 
 
 _VACKS = []                # PDU objects DataLinkConnection.sendack() returned during the current link turn
@@ -187,9 +274,10 @@ def _patch_sendack():
 
 class Monitor:
     def __init__(self, R, lp, case):
-        from vf.core import nfcpdu
+        from vf.core import nfcpdu, contracts
         import nfc.llcp.pdu as P
         self.R, self.lp, self.case, self.P = R, lp, case, P
+        self.Contract = contracts.ContractBroken
         self.fields, self.flat = nfcpdu.fields, nfcpdu.flatten
         self.announced = {}
         for end, gb, cfg in (("A", lp.gbi, case["miu_a"]), ("B", lp.gbt, case["miu_b"])):
@@ -200,19 +288,40 @@ class Monitor:
         self.agf = {"A": bool(case["agf_a"]), "B": bool(case["agf_b"])}
         self.conn_pending = {}     # (end, local sap) -> [(dsap, miu)] of CONNECTs not yet answered by CC/DM
         self.conn_miu = {}         # (receiving end, its sap, sender's sap) -> miu the receiving endpoint announced
+        self.conn_ended = 0        # connections whose end was seen (DISC/DM/FRMR): their MIUs were forgotten
+        self.ended_keys = set()    # conn_miu keys that were forgotten at least once
         self.raw_pending = {"A": [], "B": []}
         self.frames = 0
         self.active = None
         self.rx = []
         self.cur_leaf = None
         self.enq_for_leaf = 0
+        self.failed = False        # an observer of the harness raised: nothing more is judged in this history
+        # routing: service names the harness bound (name -> SAP) per end
+        self.names = {"A": {b"urn:nfc:sn:sdp": 1}, "B": {b"urn:nfc:sn:sdp": 1}}
+        self.exp_sap, self.exp_exists, self.by_name = None, False, False
+        # conservation / delivery (see module docstring)
+        self.acc, self.wseq, self.dlv, self.got = {}, {}, {}, {}
+        self.socks_of = {}         # endpoint (end, SAP, remote SAP) -> sockets of the harness that were it, in order
+        self.dist = set()          # (endpoint, segment) not left alone: order rules only, completeness not demanded
+        self.ambiguous = set()     # endpoints with two sockets of the harness that may both send
+        self.broken = set()        # stream keys already reported (no cascades)
+        self.early = set()         # delivery keys whose data overtook the CC (receiver still connecting)
+        self.sockinfo = {}
+        self.connecting = set()    # (end, SAP) of sockets of the harness whose connect() has not returned yet
+        self.tainted = False       # a helper thread did not settle: nothing that depends on thread progress is judged
         _patch_enqueue()
         _patch_sendack()
         for end in ("A", "B"):
             self._wrap_dispatch(end)
-        lp.observers.append(self.on_frame)
         self.last = None
         self.tops = []
+
+    # -- failures of the harness itself -----------------------------------------------------------
+    def monitor_failed(self, where, e):
+        self.failed = True
+        self.R.count("monitor_errors")
+        self.R.inconc("the harness' own observer failed in %s: %s %s" % (where, here_sig(e), repr(e)[:200]))
 
     # -- receiver side observation -------------------------------------------------------------
     def _wrap_dispatch(self, end):
@@ -221,19 +330,72 @@ class Monitor:
 
         def dispatch(rcvd_pdu):
             leaf = (self.active == end and rcvd_pdu is not None and getattr(rcvd_pdu, "name", None) != "AGF")
-            if leaf:
-                self.rx.append(rcvd_pdu)
-                self.cur_leaf, self.enq_for_leaf = rcvd_pdu, 0
-            try:
+            if not leaf:
                 return orig(rcvd_pdu)
-            finally:
-                if leaf:
-                    self.cur_leaf = None
+            lock = getattr(llc, "lock", None)
+            if lock is None:
+                self.monitor_failed("dispatch observer", AttributeError("controller has no lock"))
+                return orig(rcvd_pdu)
+            # the access point table is read and the PDU dispatched under the controller's (re-entrant) lock, so that
+            # a socket being closed by a helper thread cannot make "the access point exists" stale
+            with lock:
+                try:
+                    self.leaf_begin(end, llc, rcvd_pdu)
+                except Exception as e:
+                    self.monitor_failed("dispatch observer", e)
+                done = False
+                try:
+                    r = orig(rcvd_pdu)
+                    done = True
+                    return r
+                finally:
+                    try:
+                        self.leaf_end(end, done)
+                    except Exception as e:
+                        self.monitor_failed("dispatch observer", e)
         llc.dispatch = dispatch
-        _ENQ_HOOKS[id(llc)] = lambda p, end=end: self.on_enqueue(end, p)
+        _ENQ_HOOKS[id(llc)] = lambda sap, p, end=end: self.enqueue_hook(end, sap, p)
 
-    def on_enqueue(self, end, p):
-        if self.active != end:
+    def leaf_begin(self, end, llc, rcvd_pdu):
+        self.rx.append(rcvd_pdu)
+        self.cur_leaf, self.enq_for_leaf = rcvd_pdu, 0
+        self.exp_sap, self.exp_exists, self.by_name = None, False, False
+        f = self.fields(rcvd_pdu)
+        exp = f["dsap"]
+        if f["t"] == "CONNECT" and exp == 1:
+            # connect-by-name: the access point of the socket the harness bound under that name, if any
+            self.by_name = True
+            exp = self.names[end].get(f["sn"]) if f["sn"] else None
+        self.exp_sap = exp
+        if exp is not None:
+            table = llc.sap                   # nfcpy's table says whether the access point exists at this moment
+            self.exp_exists = 0 <= exp < len(table) and table[exp] is not None
+
+    def leaf_end(self, end, done):
+        leaf, self.cur_leaf = self.cur_leaf, None
+        if not done or self.failed or leaf is None:
+            return
+        R = self.R
+        if self.exp_exists:
+            R.count("enqueue_routed_checked")
+            if self.by_name:
+                R.count("enqueue_by_name_checked")
+            if self.enq_for_leaf == 0:
+                t = self.fields(leaf)["t"]
+                R.violation("transparency/enqueue/missing-%s%s" % (t, "-by-name" if self.by_name else ""),
+                            "a dispatched %s PDU was not handed to the access point %d although it exists"
+                            % (t, self.exp_sap), self.case)
+        else:
+            R.count("leaf_for_absent_access_point")
+
+    def enqueue_hook(self, end, sap, p):
+        try:
+            self.on_enqueue(end, sap, p)
+        except Exception as e:
+            self.monitor_failed("enqueue observer", e)
+
+    def on_enqueue(self, end, sap, p):
+        if self.active != end or self.failed:
             return
         R = self.R
         R.count("enqueue_observed")
@@ -245,6 +407,12 @@ class Monitor:
         if self.enq_for_leaf > 1:
             R.violation("transparency/enqueue/duplicated", "one received PDU was handed to access points twice", self.case)
         a, b = self.fields(self.cur_leaf), self.fields(p)
+        # routing: the access point that got it is the one the PDU addresses
+        landed = 1 if isinstance(sap, _ENQ_PATCHED[0]) else sap.addr
+        if landed != self.exp_sap:
+            R.violation("transparency/enqueue/misrouted-%s%s" % (a["t"], "-by-name" if self.by_name else ""),
+                        "a %s PDU for access point %s was handed to access point %s" % (a["t"], self.exp_sap, landed),
+                        self.case)
         if a["t"] == "CONNECT" and a["dsap"] == 1:
             a = dict(a, dsap=b["dsap"], sn=None)      # connect-by-name is re-addressed to the bound SAP
             b = dict(b, sn=None)
@@ -253,24 +421,277 @@ class Monitor:
                         "the dispatched one: %s vs %s" % (canon(a).hex()[:60], canon(b).hex()[:60]), self.case)
 
     # -- bookkeeping of connection MIUs (wire or peer-injected PDUs) --------------------------
-    def note_params(self, sender, d):
-        """MIU announced by connection endpoints.  An endpoint is known on the wire as (end, its SAP, peer SAP); when
-        the harness' virtual peer re-uses a source SAP for several CONNECTs the largest announced value counts
-        (weaker, never a false alarm)."""
+    def note_params(self, sender, d, virtual=False):
+        """MIU announced by connection endpoints.  An endpoint is known on the wire as (end, its SAP, peer SAP).  A
+        connection ends with DISC, DM or FRMR: what its endpoints announced is forgotten then and the next CONNECT/CC
+        of that SAP pair counts alone.  Only when no end was seen (the harness' virtual peer re-uses a source SAP for
+        several CONNECTs) the largest announced value counts (weaker, never a false alarm).  An end announced by the
+        virtual peer (injected PDU) only ends what the controller it was handed to sends."""
         other = "B" if sender == "A" else "A"
-        if d["t"] == "CONNECT":
+        t = d["t"]
+        if t == "CONNECT":
             self.conn_pending.setdefault((sender, d["ssap"]), []).append((d["dsap"], d["miu"]))
-        elif d["t"] == "CC":
-            self.conn_miu[(sender, d["ssap"], d["dsap"])] = d["miu"]
+        elif t == "CC":
+            key = (sender, d["ssap"], d["dsap"])
+            self.conn_miu[key] = max(d["miu"], self.conn_miu.get(key, 0))
             pend = self.conn_pending.get((other, d["dsap"]), [])
             cands = [m for ds, m in pend if ds in (d["ssap"], 1)]
             if cands:
                 key = (other, d["dsap"], d["ssap"])
                 self.conn_miu[key] = max(cands + [self.conn_miu.get(key, 0)])
                 pend[:] = [(ds, m) for ds, m in pend if ds not in (d["ssap"], 1)]
-        elif d["t"] == "DM":
-            pend = self.conn_pending.get((other, d["dsap"]), [])
-            pend[:] = [(ds, m) for ds, m in pend if ds != d["ssap"]]
+        elif t in ("DM", "DISC", "FRMR"):
+            if t == "DM":
+                pend = self.conn_pending.get((other, d["dsap"]), [])
+                pend[:] = [(ds, m) for ds, m in pend if ds != d["ssap"]]
+                if virtual:
+                    return            # an established endpoint ignores a DM: nothing has ended
+            # I PDUs `other` sends to `sender` on this SAP pair belong to no connection any more ...
+            keys = [(sender, d["ssap"], d["dsap"])]
+            if not virtual:
+                # ... and neither do those of `sender` (a real endpoint that says DISC/DM/FRMR has stopped sending)
+                keys.append((other, d["dsap"], d["ssap"]))
+            gone = False
+            for key in keys:
+                if self.conn_miu.pop(key, None) is not None:
+                    gone = True
+                    self.ended_keys.add(key)
+            if gone:
+                self.conn_ended += 1
+                self.R.count("connection_miu_forgotten_on_%s" % t)
+
+    # -- conservation: what the applications handed over / got ------------------------------------
+    # A connection endpoint is T = (end, its SAP, the remote SAP).  The sockets of the harness that were this endpoint
+    # one after the other are its segments (numbered by registration); a stream is (T, segment).  What a socket was
+    # given / gave is booked under its own segment; what the wire carries for T is booked under the segment of the
+    # socket registered last.  That is right only if the earlier sockets of T have nothing left to send when a new
+    # one is registered - looked up in their state and send queue then (workload knowledge, like has_pending_connect);
+    # if they may still send (the virtual peer re-used a source SAP, a new connection was accepted before the old
+    # socket's DISC went out) or the look-up fails, the endpoint is ambiguous and none of its streams is judged.
+    def may_still_send(self, sock):
+        try:
+            tco = sock._tco
+            return bool(tco.state.ESTABLISHED or any(getattr(q, "name", "") == "I" for q in list(tco.send_queue)))
+        except Exception:
+            return True
+
+    def register(self, end, sock, addr, peer):
+        """a data link connection endpoint of the harness exists from now on"""
+        if id(sock) in self.sockinfo:
+            return self.sockinfo[id(sock)]
+        if addr is None or peer is None:
+            return None
+        T = (end, addr, peer)
+        prev = self.socks_of.setdefault(T, [])
+        if T not in self.ambiguous and any(self.may_still_send(x) for x in prev):
+            self.ambiguous.add(T)
+            self.R.count("conservation_endpoints_ambiguous")
+        info = (end, addr, peer, len(prev))
+        prev.append(sock)
+        if len(prev) > 1:
+            self.R.count("conservation_endpoint_segments_after_the_first")
+        self.sockinfo[id(sock)] = info
+        return info
+
+    def seg(self, T):
+        return len(self.socks_of.get(T, ())) - 1
+
+    def info_of(self, end, sock):
+        info = self.sockinfo.get(id(sock))
+        if info is None:
+            info = self.register(end, sock, sock.getsockname(), sock.getpeername())
+        return info
+
+    def local_close(self, end, sock):
+        """the harness closes a socket: what is still queued may be discarded, what was not read is gone"""
+        info = self.sockinfo.get(id(sock))
+        if info is not None:
+            self.dist.add((info[:3], info[3]))
+
+    def accepted(self, end, sock, kind, data, dsap=None, ssap=None):
+        """send()/sendto() returned True for this message"""
+        if kind == "I":
+            info = self.info_of(end, sock)
+            if info is None:
+                self.R.count("accepted_on_unknown_endpoint")
+                return
+            key = ("I",) + info
+            item = bytes(data)
+        else:
+            key = ("UI", end, ssap)
+            item = (dsap, bytes(data))
+        self.acc.setdefault(key, []).append(item)
+        self.R.count("conservation_accepted_" + kind)
+
+    def mode_rx(self, T, g):
+        """delivery at endpoint T: also not judged when the sending side is ambiguous (the data of two sockets with
+        two numberings arrives at one endpoint, which then rejects part of it)"""
+        if ("B" if T[0] == "A" else "A", T[2], T[1]) in self.ambiguous:
+            return "ambiguous"
+        return self.mode(T, g)
+
+    def mode(self, T, g):
+        if T in self.ambiguous:
+            return "ambiguous"
+        if (T, g) in self.dist or self.tainted:
+            return "order"
+        return "clean"
+
+    def wire_data(self, snd, rcv, x, where):
+        """one I/UI leaf on the wire: the next accepted message of its sending endpoint"""
+        R = self.R
+        t = x["t"]
+        if t == "I":
+            Ts, Tr = (snd, x["ssap"], x["dsap"]), (rcv, x["dsap"], x["ssap"])
+            gs = self.seg(Ts)
+            key = ("I",) + Ts + (gs,)
+            dkey = ("I",) + Tr + (self.seg(Tr),)
+            item = ditem = bytes(x["data"])
+            mode = self.mode(Ts, gs)
+            if ((rcv, x["dsap"]) in self.connecting
+                    or [1 for ds, mm in self.conn_pending.get((rcv, x["dsap"]), []) if ds in (x["ssap"], 1)]):
+                self.early.add(dkey)                  # the receiving endpoint's connect() has not returned yet
+        else:
+            key = ("UI", snd, x["ssap"])
+            dkey = ("UI", rcv, x["dsap"])
+            item, ditem = (x["dsap"], bytes(x["data"])), (x["ssap"], bytes(x["data"]))
+            mode = "order" if self.tainted else "clean"
+        w = self.wseq.setdefault(key, [])
+        if mode == "clean" and key not in self.broken:
+            R.count("conservation_wire_checked_" + t)
+            if where == "in-AGF":
+                R.count("conservation_wire_checked_in_agf")
+            a = self.acc.get(key, ())
+            k = len(w)
+            if not (k < len(a) and a[k] == item):
+                self.broken.add(key)
+                if item not in a:
+                    kind = "not-accepted"
+                elif w.count(item) >= a.count(item):
+                    kind = "duplicated"
+                else:
+                    kind = "out-of-order"
+                R.violation("conservation/%s/wire-%s/%s" % (t, kind, where), "%s payload number %d of the sending "
+                            "endpoint %s on the wire is not the message accepted as number %d (%d accepted so far)"
+                            % (t, k + 1, key[1:4], k + 1, len(a)), self.case)
+        elif mode == "ambiguous":
+            R.count("conservation_wire_skipped_ambiguous")
+        w.append(item)
+        self.dlv.setdefault(dkey, []).append(ditem)
+
+    def end_event(self, snd, rcv, x):
+        """DISC or FRMR on the wire: both endpoints may discard what they have queued or not read (order rules only
+        from here on, completeness not demanded)"""
+        Ts, Tr = (snd, x["ssap"], x["dsap"]), (rcv, x["dsap"], x["ssap"])
+        self.dist.add((Ts, self.seg(Ts)))
+        self.dist.add((Tr, self.seg(Tr)))
+        self.R.count("connection_ends_on_wire")
+
+    def injected(self, end, d):
+        """the virtual peer of `end` says d (handed to the controller directly, not on the wire): the endpoint it
+        talks to and the real counterpart of that endpoint are not left alone any more"""
+        t = d["t"]
+        if t in ("I", "RR", "RNR", "DISC", "DM", "FRMR", "UI") and d["dsap"] > 1:
+            other = "B" if end == "A" else "A"
+            T, Tc = (end, d["dsap"], d["ssap"]), (other, d["ssap"], d["dsap"])
+            self.dist.add((T, self.seg(T)))
+            self.dist.add((Tc, self.seg(Tc)))
+            if t == "I":
+                self.dlv.setdefault(("I",) + T + (self.seg(T),), []).append(bytes(d["data"]))
+            elif t == "UI":
+                self.dlv.setdefault(("UI", end, d["dsap"]), []).append((d["ssap"], bytes(d["data"])))
+
+    def received(self, end, sock, kind, data, ssap=None):
+        """the application read a message from a socket"""
+        R = self.R
+        if kind == "I":
+            info = self.info_of(end, sock)
+            if info is None:
+                R.count("received_on_unknown_endpoint")
+                return
+            key = ("I",) + info
+            got = self.got.setdefault(key, [])
+            data = bytes(data)
+            if self.mode_rx(info[:3], info[3]) == "clean" and key not in self.broken and key not in self.early:
+                R.count("delivery_checked_I")
+                dl = self.dlv.get(key, ())
+                k = len(got)
+                if not (k < len(dl) and dl[k] == data):
+                    self.broken.add(key)
+                    if data not in dl:
+                        kind_ = "not-on-wire"
+                    elif got.count(data) >= dl.count(data):
+                        kind_ = "duplicated"
+                    else:
+                        kind_ = "out-of-order"
+                    R.violation("delivery/I/received-" + kind_, "message number %d read from the endpoint %s is not "
+                                "I payload number %d the wire carried for it (%d so far)" % (k + 1, key[1:4], k + 1,
+                                                                                              len(dl)), self.case)
+            got.append(data)
+        else:
+            self.got.setdefault(("UI", end, sock.getsockname()), []).append((ssap, bytes(data)))
+            R.count("delivery_recorded_UI")
+
+    def final_checks(self, quiescent):
+        """end of the history (before the link is terminated)"""
+        R = self.R
+        if self.failed:
+            return
+        for key in set(self.acc) | set(self.wseq):
+            a, w = self.acc.get(key, []), self.wseq.get(key, [])
+            t = key[0]
+            if t == "I":
+                T, g = key[1:4], key[4]
+                mode, current = self.mode(T, g), g == self.seg(T)
+            else:
+                mode, current = ("order" if self.tainted else "clean"), True
+            if mode == "ambiguous" or key in self.broken:
+                continue
+            if mode == "order":
+                R.count("conservation_order_only_streams")
+                if not subseq(w, a):
+                    R.violation("conservation/%s/wire-not-subsequence-of-accepted" % t, "the %s payloads of the sending "
+                                "endpoint %s on the wire (%d) are not a subsequence of the accepted messages (%d)"
+                                % (t, key[1:4], len(w), len(a)), self.case)
+            elif quiescent and current:
+                R.count("conservation_streams_complete_checked")
+                R.count("conservation_complete_checked_" + t)
+                if len(w) < len(a):
+                    R.violation("conservation/%s/accepted-never-sent" % t, "%d of %d messages accepted by the sending "
+                                "endpoint %s never appeared on the wire although the link went quiet and the "
+                                "connection was not ended" % (len(a) - len(w), len(a), key[1:4]), self.case)
+        # delivery
+        for key, got in self.got.items():
+            if key in self.broken:
+                continue
+            dl = self.dlv.get(key, [])
+            if key[0] == "UI":
+                R.count("delivery_checked_UI")
+                if not subseq(got, dl):
+                    R.violation("delivery/UI/received-not-subsequence-of-wire", "the messages read from the connection-"
+                                "less endpoint %s (%d) are not a subsequence of the UI payloads the wire carried for it "
+                                "(%d)" % (key[1:3], len(got), len(dl)), self.case)
+                continue
+            mode = self.mode_rx(key[1:4], key[4])
+            if mode == "order" or (mode == "clean" and key in self.early):
+                R.count("delivery_order_only_streams")
+                if not subseq(got, dl):
+                    R.violation("delivery/I/received-not-subsequence-of-wire", "the messages read from the endpoint %s "
+                                "(%d) are not a subsequence of the I payloads the wire carried for it (%d)"
+                                % (key[1:4], len(got), len(dl)), self.case)
+        if quiescent and not self.tainted:
+            for info in self.sockinfo.values():
+                T, g = info[:3], info[3]
+                key = ("I",) + info
+                if self.mode_rx(T, g) != "clean" or g != self.seg(T) or key in self.early or key in self.broken:
+                    continue
+                dl, got = self.dlv.get(key, []), self.got.get(key, [])
+                R.count("delivery_complete_checked")
+                if len(got) < len(dl):
+                    self.broken.add(key)
+                    R.violation("delivery/I/wire-never-received", "%d of %d I payloads the wire carried for the "
+                                "endpoint %s were never read by its application although the link went quiet and the "
+                                "connection was not ended" % (len(dl) - len(got), len(dl), key[1:4]), self.case)
 
     # -- sender side: the frame on the wire ----------------------------------------------------
     def on_frame(self, direction, enc, p):
@@ -294,21 +715,24 @@ class Monitor:
         ld = [ref.decode(x) for x in leaves]
         top = d["t"]
         R.seen("frame_types", top)
-        for x in ld:
-            R.seen("leaf_types", describe(x))
-            self.note_params(snd, x)
-        # raw access point exemption
-        exempt = False
+        # raw access point exemption, leaf by leaf
         pend = self.raw_pending[snd]
-        for x in leaves:
-            if x in pend:
-                pend.remove(x)
-                exempt = True
+        israw = [False] * len(leaves)
+        if pend:
+            for k, x in enumerate(leaves):
+                if x in pend:
+                    pend.remove(x)
+                    israw[k] = True
+        nraw = sum(israw)
         hdr = 3 if top in ("I", "RR", "RNR") else 2
         info = len(enc) - hdr
         cls = miu_class(link)
-        if exempt:
+        if nraw:
+            R.count("leaves_exempt_raw", nraw)
+        if nraw == len(leaves):
             R.count("frames_exempt_raw")
+        elif nraw:
+            self.check_beside_raw(direction, enc, leaves, israw, link)
         else:
             R.seen("miu_values_checked", link)
             if link % 4:
@@ -324,34 +748,53 @@ class Monitor:
         if top == "AGF":
             R.count("agf_frames")
             R.max("pdus_per_agf", len(ld))
-            for x in ld:
+            first_data = None
+            for k, x in enumerate(ld):
                 if x["t"] in ("RR", "RNR"):
                     R.count("rr_in_agf")
                 elif x["t"] == "DM":
                     R.count("dm_in_agf")
+                    if first_data is not None:
+                        R.count("dm_behind_data_in_agf")
                 elif x["t"] == "FRMR":
                     R.count("frmr_in_agf")
                 elif x["t"] == "SNL":
                     R.count("snl_in_agf")
+                elif x["t"] in ("CONNECT", "CC"):
+                    R.count("%s_in_agf" % x["t"].lower())
+                    if first_data is not None:
+                        R.count("%s_behind_data_in_agf" % x["t"].lower())
+                    if x["t"] == "CONNECT" and x["sn"]:
+                        R.count("connect_by_name_in_agf")
+                elif x["t"] in ("I", "UI") and first_data is None:
+                    first_data = k
             if ld and ld[-1]["t"] in ("RR", "RNR") and len(ld) > 1:
                 R.count("agf_with_trailing_ack")
-        for x in ld:
-            if x["t"] == "SNL":
+            if not nraw and link - info < 8 and any(x["t"] in ("CONNECT", "CC", "DM") for x in ld[1:]):
+                R.count("agf_near_full_with_connection_setup")
+        where = "in-AGF" if top == "AGF" else "alone"
+        for k, x in enumerate(ld):
+            t = x["t"]
+            R.seen("leaf_types", describe(x))
+            if t == "SNL":
                 R.count("snl_pdus")
                 R.max("answers_per_snl", len(x["sdres"]))
                 R.max("requests_per_snl", len(x["sdreq"]))
                 if len(x["sdres"]) > 30:
                     R.count("snl_gt30_answers")
-            # payload rule
-            if exempt:
-                continue
-            where = "in-AGF" if top == "AGF" else "alone"
-            if x["t"] == "UI":
+                if x["sdres"] and x["sdreq"]:
+                    R.count("snl_answers_and_requests")
+                    if link - (len(leaves[k]) - 2) < 8:
+                        R.count("snl_answers_and_requests_near_full")
+            elif t == "CONNECT" and x["sn"]:
+                R.seen("connect_name_lengths_on_wire", len(x["sn"]))
+            # payload rule (a PDU from a raw access point socket is exempt, its co-members are not)
+            if t == "UI" and not israw[k]:
                 R.count("ui_payload_checked")
                 if len(x["data"]) > link:
                     R.violation("payload/UI>link-miu/" + where, "UI payload of %d bytes, receiver announced Link MIU %d"
                                 % (len(x["data"]), link), self.case)
-            elif x["t"] == "I":
+            elif t == "I" and not israw[k]:
                 # data can overtake the CC (accepted socket is served before the listening one): the receiving
                 # endpoint spoke in its CONNECT, unanswered CONNECTs of that SAP count as well
                 cands = [mm for ds, mm in self.conn_pending.get((rcv, x["dsap"]), []) if ds in (x["ssap"], 1)]
@@ -362,6 +805,12 @@ class Monitor:
                     R.count("i_payload_unknown_connection")
                 else:
                     R.count("i_payload_checked")
+                    if self.conn_ended:
+                        R.count("i_payload_checked_after_a_connection_ended")
+                    if (rcv, x["dsap"], x["ssap"]) in self.ended_keys:
+                        R.count("i_payload_checked_on_sap_pair_connected_again")
+                    if m < link:
+                        R.count("i_payload_checked_connection_miu_below_link_miu")
                     R.max("i_fill_permille", len(x["data"]) * 1000 // m)
                     if len(x["data"]) > m:
                         R.violation("payload/I>connection-miu/" + where, "I payload of %d bytes, the receiving endpoint "
@@ -369,6 +818,12 @@ class Monitor:
                     if len(x["data"]) > link:
                         R.violation("payload/I>link-miu/" + where, "I payload of %d bytes, receiver announced Link "
                                     "MIU %d" % (len(x["data"]), link), self.case)
+            # conservation, leaf by leaf in wire order (a DISC/FRMR ends the connection for what follows it)
+            if t in ("I", "UI"):
+                self.wire_data(snd, rcv, x, where)
+            elif t in ("DISC", "FRMR"):
+                self.end_event(snd, rcv, x)
+            self.note_params(snd, x)
         # transparency, sender half: what collect() returned is what is on the wire
         try:
             coll = [canon(self.fields(x)) for x in self.flat(p)]
@@ -384,8 +839,35 @@ class Monitor:
                             self.case)
         self.last = (rcv, wire, top)
         self.tops.append(top)
-        if not exempt and self.agf[snd]:
-            self.vack_stats(snd, p, leaves, ld, top, info, link)
+        if not nraw and self.agf[snd]:
+            try:
+                self.vack_stats(snd, p, leaves, ld, top, info, link)
+            except Exception as e:       # coverage code that looks at nfcpy's connection state: never a verdict
+                self.monitor_failed("voluntary acknowledgement coverage", e)
+
+    def check_beside_raw(self, direction, enc, leaves, israw, link):
+        """an aggregate that carries a raw access point PDU: no other member may end beyond the Link MIU"""
+        R = self.R
+        mem = members(enc)
+        if len(mem) != len(leaves):
+            R.count("raw_aggregate_nested_skipped")
+            return
+        R.count("frames_with_raw_and_other_leaves")
+        cum = 0
+        for k, m in enumerate(mem):
+            cum += 2 + len(m)
+            if israw[k]:
+                continue
+            R.count("raw_comembers_checked")
+            if cum == link:
+                R.count("raw_comember_at_exact_miu")
+            if cum > link:
+                md = ref.decode(m)
+                R.violation("link-miu/AGF/overfull-on-adding-%s/beside-raw" % describe(md), "%s aggregate with a raw "
+                            "access point PDU: member %d of %d (%s, %d bytes) ends at octet %d of the information "
+                            "field, receiver announced Link MIU %d" % (direction, k + 1, len(mem), describe(md), len(m),
+                                                                       cum, link), self.case)
+                return
 
     # -- coverage of the voluntary acknowledgement stage (counters only) ------------------------
     def vack_owed(self, end):
@@ -491,23 +973,63 @@ class Monitor:
 
     # -- one link turn -------------------------------------------------------------------------
     def turn(self, src):
+        """collect() at src -> encode -> [wire observer] -> decode -> dispatch() at the other end.  An exception of
+        nfcpy is a verdict (Judged), one of the observers makes the run inconclusive (MonitorError)."""
+        R = self.R
         rcv = "B" if src == "A" else "A"
+        if self.failed:
+            raise MonitorError()
         self.active, self.rx, self.last = rcv, [], None
         del _VACKS[:]
+        s, d = self.lp.llc(src), self.lp.llc(rcv)
         try:
-            p = self.lp.turn(src)
-        except Exception as e:
-            if self.last is not None:       # the frame was on the wire: the receiver's decode/dispatch raised
-                self.R.violation("transparency/receive-raises/%s" % exc_sig(e), "the receiver raised %r on a frame the "
-                                 "sender collected (%s)" % (e, self.last[2]), self.case)
-            raise
+            try:
+                p = s.collect()
+            except self.Contract:
+                raise
+            except Exception as e:
+                R.violation("transparency/collect-raises/%s" % exc_sig(e), "collect() of the sender raised %r: what it "
+                            "had dequeued so far is lost" % e, self.case)
+                raise Judged(e)
+            if p is None:
+                return None
+            try:
+                enc = self.P.encode(p)
+            except self.Contract:
+                raise
+            except Exception as e:
+                R.violation("transparency/encode-raises/%s" % exc_sig(e), "the frame the sender collected cannot be "
+                            "encoded: %r" % e, self.case)
+                raise Judged(e)
+            try:
+                self.on_frame("A>B" if src == "A" else "B>A", bytes(enc), p)
+            except Exception as e:
+                self.monitor_failed("wire observer", e)
+            if self.failed:
+                raise MonitorError()
+            try:
+                d.dispatch(self.P.decode(enc))
+            except self.Contract:
+                raise
+            except Exception as e:
+                if self.failed:
+                    raise MonitorError()
+                if self.last is not None:
+                    R.violation("transparency/receive-raises/%s" % exc_sig(e), "the receiver raised %r on a frame the "
+                                "sender collected (%s)" % (e, self.last[2]), self.case)
+                raise Judged(e)
+            if self.failed:
+                raise MonitorError()
         finally:
             self.active = None
-        if p is None or self.last is None:
+        if self.last is None:
             return p
-        R = self.R
         _, wire, top = self.last
-        got = [canon(self.fields(x)) for x in self.rx]
+        try:
+            got = [canon(self.fields(x)) for x in self.rx]
+        except Exception as e:
+            self.monitor_failed("dispatch comparison", e)
+            raise MonitorError()
         R.count("transparency_compared")
         R.count("transparency_leaves", len(wire))
         if top == "AGF":
@@ -551,8 +1073,10 @@ class History:
         self.mon = Monitor(R, self.lp, case)
         self.socks = {"A": [], "B": []}      # [kind, Socket]
         self.threads = []
+        self.pending = []                    # connect() calls in helper threads: [end, socket, thread, result, how]
         self.sendno = 0
         self.aborted = None
+        self.quiescent = False
 
     # -- helpers -------------------------------------------------------------------------------
     def llc(self, end):
@@ -576,7 +1100,11 @@ class History:
         c = 0
         for _ in range(n):
             c += self.mon.turn("A") is not None
+            if self.pending:
+                self.settle()
             c += self.mon.turn("B") is not None
+            if self.pending:
+                self.settle()
         return c
 
     def spawn(self, fn, ready, limit=4000):
@@ -590,13 +1118,68 @@ class History:
         self.R.count("helper_not_ready")
         return False
 
+    def settle(self):
+        """connect() calls whose answer (CC/DM) has been dispatched: let the helper thread take it before the next
+        link turn, so that the state of the socket does not depend on thread scheduling (steers the workload and
+        reads the socket's queue for that; when the thread does not get there in time nothing that depends on it
+        is judged in this history)"""
+        for ent in list(self.pending):
+            end, s, th, res, how = ent
+            if th.is_alive():
+                try:
+                    tco = s._tco
+                    answered = bool(len(tco.recv_queue) or not tco.state.CONNECT)
+                except Exception:
+                    answered = False
+                if answered:
+                    for _ in range(10000):
+                        if not th.is_alive():
+                            break
+                        time.sleep(0.0002)
+                    else:
+                        self.R.count("helper_not_settled")
+                        self.R.seen("helper_not_settled_states", "%s %d %s" % (tco.state, len(tco.recv_queue), how))
+                        self.mon.tainted = True
+            if not th.is_alive():
+                self.pending.remove(ent)
+                self.connect_done(ent)
+
+    def connect_done(self, ent):
+        end, s, th, res, how = ent
+        R = self.R
+        self.mon.connecting.discard((end, s.getsockname()))
+        if res.get("ok"):
+            R.count("mid_connect_established")
+            R.count("mid_connect_established_" + how)
+            self.mon.register(end, s, s.getsockname(), s.getpeername())
+        else:
+            if "refused" in res:
+                R.count("mid_connect_refused")
+                R.count("mid_connect_refused_" + how)
+                R.seen("mid_connect_refusal_reasons", res["refused"])
+            else:
+                R.count("mid_connect_failed")
+                R.seen("mid_connect_failures", repr(res.get("err"))[:80])
+            for e in self.socks[end]:
+                if e[1] is s:
+                    e[0] = "idle"         # a bound, unconnected data link connection socket
+
     def inject(self, end, d):
         """a PDU the peer of `end` sent, handed straight to the controller (bytes built by the reference encoder)"""
         other = "B" if end == "A" else "A"
         enc = ref.encode(d)
-        self.mon.note_params(other, d)
+        self.mon.note_params(other, d, virtual=True)
+        self.mon.injected(end, d)
         self.R.count("peer_pdus_injected")
-        self.llc(end).dispatch(self.P.decode(enc))
+        try:
+            self.llc(end).dispatch(self.P.decode(enc))
+        except self.mon.Contract:
+            raise
+        except Exception as e:
+            # a well-formed PDU of the (virtual) peer: same verdict as for a frame the other controller sent
+            self.R.violation("transparency/receive-raises/injected-%s/%s" % (d["t"], exc_sig(e)), "the receiver raised "
+                             "%r on a well-formed %s PDU of its peer" % (e, d["t"]), self.case)
+            raise Judged(e)
         return len(enc) - 2
 
     # -- set-up --------------------------------------------------------------------------------
@@ -615,6 +1198,8 @@ class History:
             self.socks[cend].append(["dlc", cli])
             self.socks[send].append(["dlc", acc])
             self.socks[send].append(["listen", srv])
+            self.mon.register(cend, cli, cli.getsockname(), cli.getpeername())
+            self.mon.register(send, acc, acc.getsockname(), acc.getpeername())
             self.R.count("connections_established")
         elif k in ("ldl", "raw", "idle"):
             _, end = st
@@ -628,7 +1213,14 @@ class History:
             s = nfc.llcp.Socket(self.llc(end), nfc.llcp.DATA_LINK_CONNECTION)
             s.setsockopt(nfc.llcp.SO_RCVMIU, miu)
             s.setsockopt(nfc.llcp.SO_RCVBUF, rw)
-            s.bind(addr)
+            if isinstance(addr, str):              # a service name
+                name = addr.encode("latin-1")
+                s.bind(name)
+                self.mon.names[end][name] = s.getsockname()
+                self.R.count("listening_sockets_bound_by_name")
+                self.R.seen("bound_name_lengths", len(name))
+            else:
+                s.bind(addr)
             s.listen(backlog)
             self.socks[end].append(["listen", s])
         self.R.count("sockets_created")
@@ -640,7 +1232,25 @@ class History:
             return max(0, limit - v)
         if kind == "over":
             return limit + v
+        if kind == "upto":            # at most v octets, otherwise the allowed maximum
+            return max(0, min(v, limit))
         return min(v, limit)
+
+    def read_all(self, end, kind, s, n):
+        """read up to n messages from a socket of the harness and tell the monitor what the application got"""
+        R = self.R
+        for _ in range(n):
+            if not self.api(s.poll, "recv", 0):
+                break
+            if kind == "ldl":
+                r = self.api(s.recvfrom)
+                if r is not None and r[0] is not None:
+                    self.mon.received(end, s, "UI", r[0], r[1])
+            else:
+                r = self.api(s.recv)
+                if r is not None and kind == "dlc":
+                    self.mon.received(end, s, "I", r)
+            R.count("messages_received")
 
     def op(self, o):
         nfc, R = self.nfc, self.R
@@ -657,8 +1267,12 @@ class History:
             if lim is None:
                 return
             self.sendno += 1
-            if self.api(s.send, payload(self.sendno, self.size(spec, lim)), DW):
+            data = payload(self.sendno, self.size(spec, lim))
+            if self.api(s.send, data, DW):
                 R.count("dlc_sends_queued")
+                self.mon.accepted(end, s, "I", data)
+            elif spec[0] == "over" and len(data) <= self.mon.announced["B" if end == "A" else "A"]:
+                R.count("dlc_send_above_connection_miu_within_link_miu_not_accepted")
         elif k == "sendto":
             _, end, i, dsap, spec = o
             s = self.pick(end, ("ldl",), i)
@@ -668,36 +1282,32 @@ class History:
             if lim is None:
                 return
             self.sendno += 1
-            if self.api(s.sendto, payload(self.sendno, self.size(spec, lim)), dsap, DW):
+            data = payload(self.sendno, self.size(spec, lim))
+            if self.api(s.sendto, data, dsap, DW):
                 R.count("ldl_sends_queued")
+                self.mon.accepted(end, s, "UI", data, dsap=dsap, ssap=s.getsockname())
         elif k == "rawsend":
             _, end, i, dsap, n = o
             s = self.pick(end, ("raw",), i)
             if s is None:
                 return
             self.sendno += 1
-            pdu = self.P.UnnumberedInformation(dsap, s.getsockname(), payload(self.sendno, n))
+            data = payload(self.sendno, n)
+            pdu = self.P.UnnumberedInformation(dsap, s.getsockname(), data)
             self.mon.raw_pending[end].append(self.P.encode(pdu))
             if self.api(s.send, pdu, DW):
                 R.count("raw_sends_queued")
+                self.mon.accepted(end, s, "UI", data, dsap=dsap, ssap=s.getsockname())
         elif k == "drain":
             _, end = o
             for kind, s in list(self.socks[end]):
-                if kind not in ("dlc", "ldl", "raw"):
-                    continue
-                for _ in range(16):
-                    if not self.api(s.poll, "recv", 0):
-                        break
-                    self.api(s.recv)
-                    R.count("messages_received")
+                if kind in ("dlc", "ldl", "raw"):
+                    self.read_all(end, kind, s, 16)
         elif k == "recvn":
             _, end, i, n = o
             s = self.pick(end, ("dlc",), i)
-            for _ in range(n if s is not None else 0):
-                if not self.api(s.poll, "recv", 0):
-                    break
-                self.api(s.recv)
-                R.count("messages_received")
+            if s is not None:
+                self.read_all(end, "dlc", s, n)
         elif k == "snl":
             _, end, n, lmin, lmax, sd = o
             r = random.Random(sd)
@@ -741,6 +1351,7 @@ class History:
                     c = self.api(s.accept)
                     if c is not None:
                         self.socks[end].append(["dlc", c])
+                        self.mon.register(end, c, c.getsockname(), c.getpeername())
                         R.count("accepted_injected_connect")
         elif k == "pinj":
             _, end, i, t, dns, nr, n = o
@@ -779,21 +1390,100 @@ class History:
             s = self.pick(end, ("dlc",), i)
             if s is None:
                 return
-            tco = s._tco
-            # unsent I PDUs of a closing socket cannot be encoded by nfcpy (N(R) stays None) and would end the
-            # history; let them go out first (queue inspection only steers the workload)
-            for _ in range(8):
-                if not any(getattr(q, "name", "") == "I" for q in list(tco.send_queue)):
+            self.close_socket(s)
+        elif k == "setup":
+            # a socket / a connection created while the history runs (same descriptors as the initial set-up)
+            try:
+                self.setup(o[1])
+                R.count("mid_history_setups")
+                R.count("mid_history_setup_" + o[1][0])
+            except self.nfc.llcp.Error as e:
+                R.count("mid_history_setup_error_%s" % self.nfc.llcp.errno.errorcode.get(e.errno, e.errno))
+            except RuntimeError as e:
+                if "CONNECT never arrived" not in str(e) and "connect() did not return" not in str(e):
+                    raise
+                R.count("mid_history_setup_starved")
+        elif k == "connect":
+            # connect() of a new data link connection socket while the queues are in use
+            _, end, dest, miu, rw, baddr = o
+            self.connect(end, dest, miu, rw, baddr)
+        elif k == "reconnect":
+            # close a connection of the harness and connect again from the same local SAP to the same remote SAP,
+            # announcing another MIU
+            _, end, i, miu, rw = o
+            s = self.pick(end, ("dlc",), i)
+            if s is None:
+                return
+            addr, peer = s.getsockname(), s.getpeername()
+            if addr is None or peer is None:
+                return
+            th = self.close_socket(s)
+            for _ in range(10):
+                if not th.is_alive():
                     break
                 self.pump(1)
+                th.join(0.002)
+            th.join(0.05)
+            for e in self.socks[end]:
+                if e[1] is s:
+                    e[0] = "closed"
+            if th.is_alive():
+                R.count("reconnect_close_not_finished")      # the DM never came: the SAP is still in use
+                return
+            if self.connect(end, peer, miu, rw, addr):
+                R.count("reconnect_calls")
 
-            def work():
-                try:
-                    s.close()
-                except Exception:
-                    pass
-            self.spawn(work, lambda: not tco.state.ESTABLISHED)
-            R.count("close_calls")
+    def close_socket(self, s):
+        tco = s._tco
+        # let queued data go out first (queue inspection only steers the workload)
+        for _ in range(8):
+            if not any(getattr(q, "name", "") == "I" for q in list(tco.send_queue)):
+                break
+            self.pump(1)
+
+        def work():
+            try:
+                s.close()
+            except Exception:
+                pass
+        self.mon.local_close(None, s)
+        self.spawn(work, lambda: not tco.state.ESTABLISHED)
+        self.R.count("close_calls")
+        return self.threads[-1]
+
+    def connect(self, end, dest, miu, rw, baddr):
+        nfc, R = self.nfc, self.R
+        try:
+            s = nfc.llcp.Socket(self.llc(end), nfc.llcp.DATA_LINK_CONNECTION)
+            s.setsockopt(nfc.llcp.SO_RCVMIU, miu)
+            s.setsockopt(nfc.llcp.SO_RCVBUF, rw)
+            s.bind(baddr)
+        except nfc.llcp.Error as e:
+            R.count("mid_connect_bind_error_%s" % nfc.llcp.errno.errorcode.get(e.errno, e.errno))
+            return False
+        how = "by_name" if isinstance(dest, str) else "by_addr"
+        dst = dest.encode("latin-1") if isinstance(dest, str) else dest
+        res = {}
+
+        def work():
+            try:
+                s.connect(dst)
+                res["ok"] = True
+            except nfc.llcp.ConnectRefused as e:
+                res["refused"] = e.reason
+            except Exception as e:
+                res["err"] = e
+        tco = s._tco
+        self.spawn(work, lambda: bool(res) or len(tco.send_queue) > 0 or not tco.state.CLOSED)
+        self.socks[end].append(["dlc", s])
+        self.mon.connecting.add((end, s.getsockname()))
+        self.pending.append([end, s, self.threads[-1], res, how])
+        R.count("mid_connect_calls")
+        R.count("mid_connect_calls_" + how)
+        if how == "by_name":
+            R.seen("connect_name_lengths", len(dst))
+        R.count("sockets_created")
+        return True
 
     # -- whole history -------------------------------------------------------------------------
     def run(self):
@@ -804,6 +1494,10 @@ class History:
         try:
             for st in self.case["setup"]:
                 self.setup(st)
+        except (MonitorError, Judged) as e:
+            self.aborted = e
+            self.finish()
+            return self.mon.frames > 0
         except Exception as e:
             self.aborted = e
             R.count("setup_failed")
@@ -823,6 +1517,7 @@ class History:
                 self.op(["drain", "B"])
                 idle = idle + 1 if sent == 0 else 0
                 if idle >= 3:
+                    self.quiescent = True
                     break
                 # two nfcpy stacks answer each other's DM with a DM for ever (inactive socket on both sides):
                 # nothing new to see, stop there
@@ -832,10 +1527,28 @@ class History:
                     break
             else:
                 R.count("tail_not_quiescent")
+            if self.quiescent:
+                R.count("histories_quiescent")
+        except MonitorError as e:
+            self.aborted = e
+            R.count("history_stopped_monitor_error")
+        except Judged as e:
+            self.aborted = e.orig
+            R.count("history_stopped_after_verdict")
         except Exception as e:
             self.aborted = e
-            R.count("history_aborted")
-            R.seen("history_aborts", exc_sig(e) + " " + repr(e)[:80])
+            if isinstance(e, self.mon.Contract):
+                R.count("history_aborted")           # reported as len/... by run()
+            else:
+                # nothing of nfcpy raises here any more (socket calls go through api(), link turns through
+                # Monitor.turn): this is a defect of the harness and must not pass as coverage
+                R.count("history_aborted")
+                R.seen("history_aborts", here_sig(e) + " " + repr(e)[:80])
+                R.inconc("the harness failed while running a history: %s %s" % (here_sig(e), repr(e)[:200]))
+        try:
+            self.mon.final_checks(self.quiescent and self.aborted is None)
+        except Exception as e:
+            self.mon.monitor_failed("final checks", e)
         self.finish()
         return self.mon.frames > 0
 
@@ -964,12 +1677,187 @@ def gen_vack(rng, case):
     return case
 
 
+def sn_of(k, n):
+    """well-formed service name (bindable) of exactly n >= 12 octets, distinct for distinct k"""
+    return "urn:nfc:sn:" + "s" + name_of(k, n - 12).decode("latin-1").replace(".", "-")
+
+
+def connect_info(miu, rw, name):
+    """information field of the CONNECT PDU nfcpy builds for these socket options (MIUX/RW TLVs only when they are
+    not the default, SN TLV for connect-by-name) - used to aim the size of the data in front of it, not by an oracle"""
+    return (4 if miu != 128 else 0) + (3 if rw != 1 else 0) + ((2 + len(name)) if isinstance(name, str) else 0)
+
+
+def gen_conn(rng, case):
+    """connection set-up while the queues are in use: CONNECT (by address, by names of 1..200 octets), CC and DM
+    (refused) PDUs become due at the sender this job aims at (A, sometimes B) together with a data PDU that leaves
+    -4..+4 octets around what the set-up PDU needs in the aggregate (or, without aggregation, fills the frame); new
+    sockets and connections appear while the history runs; a connection is closed and made again from the same SAP
+    pair with another MIU and then used up to its new limit; a raw access point socket adds PDUs that are exempt
+    beside members that are not."""
+    link = {"A": case["miu_b"], "B": case["miu_a"]}        # what an end may send
+    setup, ops = [], []
+    ends = ("A", "B")
+    other = {"A": "B", "B": "A"}
+    listen = {"A": [], "B": []}          # [dest (int or str), connect-info size without the options]
+    # connection-less sockets first: SAP 32 carries the leading UI PDU and lies in front of every client socket
+    ldl_first = {e: rng.random() < 0.7 for e in ends}
+    for e in ends:
+        if ldl_first[e]:
+            setup.append(["ldl", e])
+    # services: by address above the data SAPs, by name (SAP 16..31) below them
+    for e in ends:
+        for i in range(rng.choice([1, 1, 2, 3])):
+            addr = 40 + i
+            setup.append(["listen", e, addr, some_miu(rng), rng.choice([0, 1, 1, 2, 15]), rng.choice([1, 2, 4, 16])])
+            listen[e].append(addr)
+        for i in range(rng.choice([1, 2, 2, 4])):
+            n = rng.choice([12, 13, 16, 30, 60, 100, 119, 120, 150, 199, 200, rng.randrange(12, 201)])
+            name = sn_of(rng.randrange(1000) * 8 + i, n)
+            if name in listen[e]:
+                continue
+            setup.append(["listen", e, name, some_miu(rng), rng.choice([0, 1, 1, 2, 15]), rng.choice([1, 2, 4])])
+            listen[e].append(name)
+    # one or two connections that exist from the start (leading I PDUs, data on both sides)
+    base = []
+    for i in range(rng.choice([1, 1, 2])):
+        cend = rng.choice(ends)
+        lo = rng.random() < 0.5
+        cmiu, smiu = some_miu(rng), some_miu(rng)
+        if lo:                             # connection MIU below the Link MIU: sends between the two must be refused
+            cmiu, smiu = rng.choice([128, 128, 129, 140]), rng.choice([128, 128, 131, 200])
+        setup.append(["conn", cend, 60 + i, cmiu, rng.choice([1, 2, 4, 15]), smiu, rng.choice([1, 2, 4, 15])])
+        base.append(cend)
+    for e in ends:
+        if not ldl_first[e]:
+            setup.append(["ldl", e])
+        if rng.random() < 0.5:
+            setup.append(["idle", e])
+    raw = {e: rng.random() < (0.35 if e == "A" else 0.1) for e in ends}
+    for e in ends:
+        if raw[e]:
+            setup.append(["raw", e])
+    case["setup"] = setup
+    unbound = 0
+    reconnected = False
+    nrounds = rng.randrange(5, 12)
+    recon_at = rng.randrange(1, nrounds - 1) if rng.random() < 0.7 else -1
+    for rnd in range(nrounds):
+        e = "A" if rng.random() < 0.75 else "B"
+        p = other[e]
+        lim = link[e]
+        due = []                            # sizes (as aggregate members: 2 + PDU) of what e will have to send
+        # -- the peer asked for connections earlier: CC for those that found a listening socket
+        if rng.random() < 0.6:
+            ops.append(["accept", e])
+        # -- e asks for connections
+        for _ in range(rng.choice([0, 1, 1, 2, 2])):
+            c = rng.random()
+            miu, rw = rng.choice([128, 128, some_miu(rng)]), rng.choice([1, 1, 0, 2, 15])
+            if c < 0.30 and listen[p]:
+                dest = rng.choice([d for d in listen[p] if isinstance(d, int)])
+            elif c < 0.65:
+                cand = [d for d in listen[p] if isinstance(d, str) and connect_info(miu, rw, d) <= lim]
+                if not cand:
+                    continue
+                dest = rng.choice(cand)
+            elif c < 0.85:
+                # a name nobody bound (any octets, 1..200): refused with a DM from the service discovery SAP
+                n = rng.choice([1, 2, 11, 12, 40, 100, 150, 200, rng.randrange(1, 201)])
+                n = max(1, min(n, lim - 9))
+                unbound += 1
+                dest = name_of(5000 + unbound, n).decode("latin-1")
+            else:
+                dest = 32 + rng.randrange(3)          # a SAP without a listening socket: refused (if it exists)
+            ops.append(["connect", e, dest, miu, rw, None])
+            due.append(4 + connect_info(miu, rw, dest))
+        # -- the peer asks e (the CONNECT arrives with the peer's turn; CC / DM are due at e in a later round)
+        for _ in range(rng.choice([0, 0, 1, 1])):
+            c = rng.random()
+            miu, rw = rng.choice([128, some_miu(rng)]), rng.choice([1, 0, 2, 15])
+            if c < 0.4:
+                dest = rng.choice(listen[e])
+                if isinstance(dest, str) and connect_info(miu, rw, dest) > link[p]:
+                    continue
+            elif c < 0.7:
+                unbound += 1
+                dest = name_of(5000 + unbound, max(1, min(rng.choice([1, 5, 30, 100, 200]), link[p] - 9))).decode("latin-1")
+            else:
+                dest = 32 + rng.randrange(4)
+            ops.append(["connect", p, dest, miu, rw, None])
+        # -- sockets and connections that appear while the history runs
+        c = rng.random()
+        if c < 0.10:
+            ops.append(["setup", ["ldl", rng.choice(ends)]])
+        elif c < 0.16:
+            ops.append(["setup", ["listen", rng.choice(ends), 48 + rnd, some_miu(rng), rng.choice([1, 2, 15]), 2]])
+        elif c < 0.22:
+            ops.append(["setup", ["conn", rng.choice(ends), 50 + (rnd % 8), some_miu(rng),
+                                  rng.choice([1, 2, 15]), some_miu(rng), rng.choice([1, 2, 15])]])
+        # -- close a connection and make it again from the same SAP pair with another MIU
+        if rnd == recon_at and base:
+            i = rng.randrange(len(base))
+            old = setup[[k for k, st in enumerate(setup) if st[0] == "conn"][i]]
+            new_miu = rng.choice([128, 128, 129, 200, 2175, max(128, min(old[3], old[5]) - rng.randrange(1, 60))])
+            ops.append(["reconnect", base[i], i, new_miu, rng.choice([1, 2, 15])])
+            ops.append(["pump", 1])
+            ops.append(["accept", other[base[i]]])
+            ops.append(["pump", 2])
+            for end_ in ends:             # the limit of the connection made just now, and one octet more
+                ops.append(["send", end_, -1, ["max", 0]])
+                ops.append(["send", end_, -1, ["over", 1]])
+            ops.append(["pump", 1])
+            ops.append(["drain", "A"])
+            ops.append(["drain", "B"])
+            reconnected = True
+        if reconnected and rng.random() < 0.7:
+            # use the connections up to (and one octet beyond) what SO_SNDMIU says now; index -1 is the socket made
+            # last at that end (the re-connected one unless something else was created since)
+            for end_ in ends:
+                for _ in range(rng.randrange(1, 3)):
+                    ops.append(["send", end_, rng.choice([-1, -1, rng.randrange(4)]),
+                                rng.choice([["max", 0], ["max", 1], ["over", 1], ["max", rng.randrange(0, 6)]])])
+        # -- a raw access point PDU: small (others follow it in the aggregate) or beyond every limit
+        if raw[e] and rng.random() < 0.7:
+            ops.append(["rawsend", e, 0, rng.choice([32, 33, 40]), rng.choice([0, 1, 10, 30, lim - 20, lim, lim + 50])])
+        # -- traffic on connections made during the history
+        for _ in range(rng.choice([0, 1, 2])):
+            ops.append(["send", rng.choice(ends), rng.randrange(10), rng.choice([["max", 0], ["max", 0], ["over", 1],
+                                                                               ["abs", rng.randrange(0, 30)],
+                                                                               ["max", rng.randrange(0, 12)]])])
+        # -- the leading data PDU at e: aimed at what is due behind it (first k set-up PDUs), or a sweep near the end
+        if due and rng.random() < 0.7:
+            k = rng.randrange(1, len(due) + 1)
+            need = sum(due[:k])
+        else:
+            need = rng.choice([5, 5, 9, 11, rng.randrange(0, 26)])         # DM: 5, CC: 4..11
+        delta = rng.randrange(-4, 5)
+        c = rng.random()
+        if c < 0.55 or not base:
+            ops.append(["sendto", e, 0, 32, ["upto", lim - 4 - need + delta]])
+        elif c < 0.85:
+            ops.append(["send", e, 0, ["upto", lim - 5 - need + delta]])
+        else:
+            ops.append(["send", e, rng.randrange(6), ["max", rng.randrange(0, 12)]])
+        if rng.random() < 0.3:
+            ops.append(["sendto", e, 0, 32, ["abs", rng.randrange(0, 8)]])
+        ops.append(["pump", 1])
+        if rng.random() < 0.7:
+            ops.append(["drain", rng.choice(ends)])
+        if rng.random() < 0.5:
+            ops.append(["accept", p])
+    case["ops"] = ops
+    return case
+
+
 def gen_case(rng, miu_b, agf_a, profile):
     """A is the sender this job aims at: B announces miu_b, A aggregates or not; B->A is monitored all the same"""
     case = {"miu_a": rng.choice([2175, 2175, 248, rng.choice(SPECIAL), rng.randrange(128, 2176)]), "miu_b": miu_b,
             "agf_a": agf_a, "agf_b": rng.randrange(2), "rseed": rng.randrange(1 << 30), "profile": profile}
     if profile == "vack":
         return gen_vack(rng, case)
+    if profile == "conn":
+        return gen_conn(rng, case)
     setup, ops = [], []
     ends = ("A", "B")
     nconn = {"sd": rng.choice([0, 0, 1]), "edge": rng.choice([1, 2, 3]), "mix": rng.choice([0, 1, 2, 4, 6])}[profile]
